@@ -158,9 +158,9 @@ func (x *Explorer) explore(prefix []int, depth int, owned bool) {
 	for i, p := range res.Points {
 		if i >= len(prefix) {
 			d, pc, ec := dev+1, pre, env
-			if p.Env {
-				ec++
-			} else if p.RunningEnabled {
+			if p.Env && !strings.HasPrefix(p.Kind, "select") {
+				ec++ // (the choice among ready select clauses counts as an ordinary deviation)
+			} else if p.RunningEnabled && !p.Env {
 				pc++
 			}
 			if d <= x.Bound && ec <= x.EnvBound && (x.PreemptBound <= 0 || pc <= x.PreemptBound || p.Env) {
